@@ -32,7 +32,7 @@ RULE = ("cases: random rooted trees (1..6 nodes quick, ..8 thorough; random chil
         "from {none,1,2,3}) x random symbolic Hamiltonians (1..8 terms, supports 1..N, labels shared between "
         "sites of equal dimension, explicit identity labels, Fraction prefactors incl. negative, symbols shared "
         "or distinct) x 4 methods; three streams: 'clean' (pairwise distinct label assignments), 'prop' (equal "
-        "assignments with different coefficients), 'dup' (fully identical terms), 'zero' (some prefactor 0; only while F-C01c is open).  non-trivial = distinct "
+        "assignments with different coefficients), 'dup' (fully identical terms), 'zero' (some prefactor 0), 'lowrank' (coefficient matrix of prescribed low rank across an edge).  non-trivial = distinct "
         "(tree, Hamiltonian, method) with >= 2 terms and >= 2 nodes")
 PARTIAL = [
     "combine_subtrees / cut_and_optimise / _reconnect_hyperedges / _copy_node (SGE, BIPARTITE) and the marking walk "
@@ -40,8 +40,8 @@ PARTIAL = [
     "comparison of the library's state diagram with the padded Hamiltonian and by the dense oracle",
     "from_state_diagram (tensor filling, find_tensor_position, obtain_tensor_shape) is not modelled in Lean: "
     "sum over bond indices = sum over consistent hyperedge choices is checked per input (formal sum vs dense contraction)",
-    "known defects F-C01a (TREE) and F-C01b (SGE/BIPARTITE): the full-strength statement is false of the code for "
-    "those methods; theorem base_exact covers the uncompressed method only",
+    "known defects F-C01a (TREE), F-C01b / F-C01c (SGE, BIPARTITE) and F-C01d (SGE): the full-strength statement is "
+    "false of the code for those methods; theorem base_exact covers the uncompressed method only",
 ]
 ASSUMPTIONS = ["labels of a conversion dictionary denote square matrices of the site's dimension; 'I<d>' denotes the "
                "d x d identity; coeffs_mapping['1'] == 1"]
@@ -98,6 +98,33 @@ def classify(case) -> Dict[str, bool]:
     }
 
 
+def partial_coefficient_loss(got, want) -> bool:
+    """F-C01d shape: the diagram has the Hamiltonian's support and every deviating coefficient lost part of its
+    value: 0 < got/want < 1 (two equal contributions collapsed into one, e.g. 1 instead of 2)."""
+    if got is None:
+        return False
+    dev = False
+    for k in set(got) | set(want):
+        g, w = got.get(k, Fraction(0)), want.get(k, Fraction(0))
+        if g == w:
+            continue
+        if w == 0 or g == 0:
+            return False
+        r = g / w
+        if not (0 < r < 1):
+            return False
+        dev = True
+    return dev
+
+
+def fc01d_input(case) -> bool:
+    """Input part of the F-C01d signature: distinct padded assignments, no zero prefactor, at least two different
+    coefficient symbols (counting '1'), at least three nodes (two cuts)."""
+    c = classify(case)
+    return (not c["dup_assign"]) and (not c["zero"]) and len({t[2] for t in case["terms"]}) >= 2 \
+        and len(case["par"]) >= 3
+
+
 def known_signature(case, method: str, outcome: str) -> Optional[str]:
     """Finding id a failure of `method` on this input belongs to, or None.
 
@@ -111,6 +138,8 @@ def known_signature(case, method: str, outcome: str) -> Optional[str]:
               carried by two fully identical terms plus a third with another coefficient.
               [equal assignments with different coefficients are exact]
       F-C01c  SGE/BIPARTITE, some term has prefactor 0 (any manifestation, see the comment below).
+      F-C01d  SGE only, distinct assignments, no zero prefactor, >= 2 different symbols, >= 3 nodes, and the diagram
+              deviates from the Hamiltonian only by coefficients with 0 < got/want < 1 (`partial_coefficient_loss`).
     """
     c = classify(case)
     if method == "TREE":
@@ -127,6 +156,8 @@ def known_signature(case, method: str, outcome: str) -> Optional[str]:
             return "F-C01b"          # second manifestation of the same defect (empty V_set entry)
         if outcome == "wrong" and c["dup_full"]:
             return "F-C01b"
+    if method == "SGE" and outcome == "wrong-partial-loss" and fc01d_input(case):
+        return "F-C01d"
     return None
 
 
@@ -329,6 +360,28 @@ def prepare(case):
     return val
 
 
+def structure_problems(case, ref, ttno) -> List[str]:
+    """Identifiers, parent/child relations of the reference tree; well-formed; physical dimensions from the table."""
+    probs = []
+    n = len(case["par"])
+    want_struct = dense.structure(ref)
+    got_struct = dense.structure(ttno)
+    if got_struct != want_struct:
+        probs.append(f"structure differs from the reference tree: {got_struct} vs {want_struct}")
+        return probs
+    wf = dense.well_formed(ttno)
+    if wf:
+        probs.append("TTNO not well-formed: " + "; ".join(wf[:3]))
+    pd = site_dims(case)
+    for i in range(n):
+        nid = f"n{i}"
+        t = ttno.tensors[nid]
+        nv = ttno.nodes[nid].nneighbours()
+        if t.ndim != nv + 2 or tuple(t.shape[nv:]) != (pd[i], pd[i]):
+            probs.append(f"node {nid}: tensor shape {t.shape}, expected {nv} virtual legs + ({pd[i]},{pd[i]})")
+    return probs
+
+
 # ------------------------------------------------------------------ reading a library state diagram
 
 def diagram_problems(sd, ref) -> List[str]:
@@ -497,6 +550,38 @@ def canonical_diagram(sd, ref) -> str:
     return ";".join(parts) + ";" + ",".join(edges)
 
 
+def gauge_free_diagram(case, diag: str) -> str:
+    """Rename the vertices of every edge in order of first appearance (nodes in index order, hyperedges in list
+    order): the order of an edge's vertex collection is a permutation of the bond index, not behaviour."""
+    n = len(case["par"])
+    attach: Dict[int, List[int]] = {i: [] for i in range(n)}
+    for x in case["order"]:
+        if case["par"][x] >= 0:
+            attach[case["par"][x]].append(x)
+    parts = diag.split(";")
+    if len(parts) != n + 1:
+        return diag
+    ren: Dict[int, Dict[str, int]] = {i: {} for i in range(n)}      # edge (keyed by child) -> old position -> new
+    out = []
+    for i in range(n):
+        head, _, body = parts[i].partition("=")
+        edges = ([i] if case["par"][i] >= 0 else []) + attach[i]
+        hes = []
+        for he in (body.split(",") if body else []):
+            f = he.split("|")
+            if len(f) != 4:
+                return diag
+            pos = f[3].split(".") if f[3] else []
+            if len(pos) != len(edges):
+                return diag
+            new = []
+            for e, q in zip(edges, pos):
+                new.append(str(ren[e].setdefault(q, len(ren[e]))))
+            hes.append("|".join(f[:3] + [".".join(new)]))
+        out.append(head + "=" + ",".join(hes))
+    return ";".join(out) + ";" + parts[n]
+
+
 # ------------------------------------------------------------------ Lean protocol
 
 def lean_tree_tokens(case) -> str:
@@ -551,21 +636,26 @@ def run(ctx):
                 cases.append(payload.get("case", payload))
     max_nodes = 6 if ctx.tier == "quick" else 8
     max_dim = 72 if ctx.tier == "quick" else 216
-    n_ham = ctx.n(2000, 20000)
+    n_ham = ctx.n(2400, 20000)
     streams = ["clean"] * 5 + ["prop"] * 2 + ["dup"] * 2
     for k in range(n_ham):
         stream = streams[k % len(streams)]
         cases.append(gen_hamiltonian_case(rng, stream, max_nodes, max_dim))
-    # zero prefactors (recorded defect F-C01c): generated only while that finding is listed as open
-    known = common.load_known_findings("C01")
-    if "F-C01c" in known and known["F-C01c"].get("status") == "open":
-        for k in range(max(4, n_ham // 12)):
-            c = gen_hamiltonian_case(rng, ["clean", "clean", "prop", "dup"][k % 4], max_nodes, max_dim)
-            for _ in range(rng.choice([1, 1, 2])):
-                t = rng.choice(c["terms"])
-                t[0] = 0
-            c["stream"] = "zero"
-            cases.append(c)
+    # zero prefactors (recorded defect F-C01c for SGE/BIPARTITE; BASE must stay exact)
+    for k in range(max(4, n_ham // 12)):
+        c = gen_hamiltonian_case(rng, ["clean", "clean", "prop", "dup"][k % 4], max_nodes, max_dim)
+        for _ in range(rng.choice([1, 1, 2])):
+            t = rng.choice(c["terms"])
+            t[0] = 0
+        c["stream"] = "zero"
+        cases.append(c)
+    # adversarial low-rank Hamiltonians (generator of C12; distinct assignments, symbols per row / column):
+    # the inputs on which the recorded defect F-C01d was found (about one hit in 200000)
+    from harness.props import c12 as _c12
+    for k in range(n_ham // 5):
+        c = _c12.gen_lowrank_case(rng, min(max_nodes, 5), max_dim)
+        c["kind"] = "ham"
+        cases.append(c)
     # hand-made corner cases (always)
     cases.extend(fixed_cases())
     # Lean answers in one batch (BASE model: denotation, diagram, padded Hamiltonian)
@@ -653,22 +743,7 @@ def run_case(ctx, case, model_out: Optional[List[str]] = None):
         return
 
     # ---- structure
-    probs = []
-    want_struct = dense.structure(ref)
-    got_struct = dense.structure(ttno)
-    if got_struct != want_struct:
-        probs.append(f"structure differs from the reference tree: {got_struct} vs {want_struct}")
-    else:
-        wf = dense.well_formed(ttno)
-        if wf:
-            probs.append("TTNO not well-formed: " + "; ".join(wf[:3]))
-        pd = site_dims(base)
-        for i in range(n):
-            nid = f"n{i}"
-            t = ttno.tensors[nid]
-            nv = ttno.nodes[nid].nneighbours()
-            if t.ndim != nv + 2 or tuple(t.shape[nv:]) != (pd[i], pd[i]):
-                probs.append(f"node {nid}: tensor shape {t.shape}, expected {nv} virtual legs + ({pd[i]},{pd[i]})")
+    probs = structure_problems(base, ref, ttno)
     if probs:
         fail("structure", "; ".join(probs[:3]))
         ctx.tally("outcome", f"{method}:structure")
@@ -676,8 +751,12 @@ def run_case(ctx, case, model_out: Optional[List[str]] = None):
 
     # ---- numeric oracle
     wrong = []
-    got = dense.ttno_matrix(ttno, order)
-    err = np.linalg.norm(got - M) / scale
+    try:
+        got = dense.ttno_matrix(ttno, order)
+        err = np.linalg.norm(got - M) / scale
+    except Exception as e:      # noqa: BLE001  (tensors that do not fit together)
+        err = float("inf")
+        wrong.append(f"TTNO cannot be contracted: {type(e).__name__}: {str(e)[:120]}")
     if not err <= TOL:
         wrong.append(f"dense contraction differs from sum_k c_k (x) A_k: relative error {err:.3e}")
     # as_matrix consistency (returned order)
@@ -731,6 +810,9 @@ def run_case(ctx, case, model_out: Optional[List[str]] = None):
             outcome = "wrong-other"
         if method in ("SGE", "BIPARTITE") and got_formal is None:
             outcome = "wrong-other"
+        if method == "SGE" and outcome == "wrong-other" and not cls["dup_full"] and \
+                partial_coefficient_loss(got_formal, want_formal):
+            outcome = "wrong-partial-loss"
         fail(outcome, "; ".join(wrong[:3]))
         ctx.tally("outcome", f"{method}:{outcome}")
     else:
@@ -747,7 +829,8 @@ def run_case(ctx, case, model_out: Optional[List[str]] = None):
         impl_denote = fmt_formal_protocol(got_formal)
         if m_denote != impl_denote:
             ctx.corr_fail(case, f"sdDenote(model base diagram) = {m_denote[:300]} but library diagram denotes {impl_denote[:300]}")
-        impl_diag = canonical_diagram(sd, ref)
+        impl_diag = gauge_free_diagram(base, canonical_diagram(sd, ref))
+        m_diag = gauge_free_diagram(base, m_diag)
         if m_diag != impl_diag:
             ctx.corr_fail(case, f"base diagram: model {m_diag[:300]} library {impl_diag[:300]}")
         want_ham = fmt_formal_protocol(want_formal)
